@@ -104,7 +104,8 @@ blocks.append(handler("processInvalidUserEntry", "invalidUserRE", [f'Subj({N}, "
 
 S0 = "old(sentlen(config.logins))"
 SENT = f"sent(config.logins, {S0})"
-ACC_COMMON = f"""//@   requires CfgOK(config)
+ACC_COMMON = f"""//@   blocks cancellable
+//@   requires CfgOK(config)
 //@   modifies out, CTRMOD chans
 //@   allocates
 //@   ensures[err] result != nil ==> len(out) == {N} && wfailed && sentlen(config.logins) == {S0}
@@ -167,6 +168,7 @@ blocks.append(f"""//@ pred DataHas(i, k, v) := out[i].Data != nil && has(jsonmap
 //@   ensures[ctr] OneCount("ssh-cert", "failure")
 
 //@ func ProcessEntry
+//@   blocks cancellable
 //@   requires CfgOK(config)
 //@   modifies out, ctr, chans
 //@   allocates
@@ -201,6 +203,7 @@ blocks.append(f"""//@ pred DataHas(i, k, v) := out[i].Data != nil && has(jsonmap
 //@ ghost g_sshd_ctx : Int
 
 //@ func (*SshdProcessorer).ProcessSshdLogEntry
+//@   blocks cancellable
 //@   requires s != nil && s.metrics != nil && s.metrics.remoteLogins != nil && s.eventW != nil && ctx != nil
 //@   ghost g_sshd_calls := g_sshd_calls + 1
 //@   ghost g_sshd_pid := sm.PID
